@@ -446,14 +446,90 @@ func c16RepairTwoPolicies() c16Case {
 	}}
 }
 
+
+// c16RepairRetry: a repair that was approved once is retried later (the Delete failed, or the controller died between
+// the termination-timestamp patch and the Delete); meanwhile more nodes of the pool turned unhealthy and the clock moved.
+// The retry has to pass the 20% breaker again with the pool as it is THEN.
+func c16RepairRetry() c16Case {
+	tol := 30 * time.Minute
+	pools := []int{5, 10}
+	extras := []int{0, 1, 2}
+	steps := []time.Duration{0, 2 * time.Second, 6 * time.Minute}
+	return c16Case{name: "node-repair-retry", n: enum.Size(len(pools), len(extras), len(steps)), run: func(i int64, run *explore.Run, l *ev.Local) {
+		d := enum.Odo(i, len(pools), len(extras), len(steps))
+		n, extra, step := pools[d[0]], extras[d[1]], steps[d[2]]
+		threshold := (n + 4) / 5
+		w := world.New(world.Options{NodeRepair: true})
+		w.CP.Catalog[""] = world.BuildCatalog(K1)
+		w.CP.Repair = []cloudprovider.RepairPolicy{{ConditionType: "BadNode", ConditionStatus: corev1.ConditionFalse, TolerationDuration: tol}}
+		w.Add(world.NodeClass(), world.NodePool("default"))
+		var target *corev1.Node
+		var targetNC *v1.NodeClaim
+		var nodes []*corev1.Node
+		bad := func(node *corev1.Node, at time.Time) {
+			node.Status.Conditions = append(node.Status.Conditions, corev1.NodeCondition{Type: "BadNode", Status: corev1.ConditionFalse, LastTransitionTime: metaT(at)})
+			w.EnvUpdate(node)
+		}
+		for k := 0; k < n; k++ {
+			nc, node := w.BuildNode(world.NodeSpec{Name: fmt.Sprintf("n%d", k), Pool: "default", Type: K1[0], Offer: K1[0].Offers[0]})
+			nodes = append(nodes, node)
+			if k < threshold { // exactly as many unhealthy nodes as the breaker allows
+				bad(node, world.Epoch.Add(-tol).Add(-time.Minute))
+			}
+			if k == 0 {
+				target, targetNC = node, nc
+			}
+		}
+		unhealthy := threshold
+		taken := w.AttachFaults(run, nil)
+		ctrl := health.NewController(w.Client, w.CP, w.Clock, w.Rec)
+		var descs []string
+		reconcile := func(label string) {
+			before := len(w.Client.Log)
+			obj := &corev1.Node{}
+			if err := w.Raw.Get(w.Ctx, client.ObjectKeyFromObject(target), obj); err != nil {
+				return
+			}
+			_, _ = ctrl.Reconcile(w.Ctx, obj)
+			att := 0
+			for _, c := range w.Client.Log[before:] {
+				if c.Verb == "delete" && c.Kind == "NodeClaim" && c.Name == targetNC.Name {
+					att++
+				}
+			}
+			desc := fmt.Sprintf("repair retry (%s): pool of %d, %d unhealthy (allowed %d), clock +%v since the first attempt, faults=%v", label, n, unhealthy, threshold, w.Clock.Now().Sub(world.Epoch), *taken)
+			descs = append(descs, desc)
+			if att > 0 && unhealthy > threshold {
+				l.Violation("repair: deleted although more than 20% of the pool is unhealthy", desc, map[string]any{"calls": callStrings(w)})
+			}
+			l.Outcome(fmt.Sprintf("repair-retry %s deleted=%v over-threshold=%v", label, att > 0, unhealthy > threshold))
+		}
+		reconcile("first attempt")
+		for k := 0; k < extra; k++ {
+			obj := &corev1.Node{}
+			must(w.Raw.Get(w.Ctx, client.ObjectKeyFromObject(nodes[threshold+k]), obj))
+			bad(obj, w.Clock.Now())
+			unhealthy++
+		}
+		w.Clock.Step(step)
+		reconcile("retry")
+		if len(*taken) > 0 {
+			l.Nontrivial(strings.Join(descs, " | "))
+		}
+		if i == 4 && len(*taken) == 0 {
+			l.Sample(map[string]any{"case": descs, "calls": callStrings(w)})
+		}
+	}}
+}
+
 func init() {
 	register("C16", "fault_enumeration", func(r *ev.Rec) {
 		bound, maxN := 2, 10
 		if r.Tier == "thorough" {
 			bound, maxN = 3, 10
 		}
-		cases := []c16Case{c16Expiration(), c16GC(), c16GCInterleaved(), c16Liveness(), c16Repair(maxN), c16RepairTwoPolicies()}
-		r.Rule = fmt.Sprintf("four drivers (expiration, garbage collection, liveness via the lifecycle controller, node repair) over full state x clock-offset products (offsets -1s/0/+1s around each threshold; repair pools of 1..%d nodes with every unhealthy count, the other unhealthy nodes unhealthy equally long or only recently; garbage collection with a machine coming up between any two calls of the reconcile; a provider with two repair policies of different tolerations and a node matching none / one / both, each condition absent / healthy / unhealthy for its own toleration -5m/-1s/0/+1s); "+
+		cases := []c16Case{c16Expiration(), c16GC(), c16GCInterleaved(), c16Liveness(), c16Repair(maxN), c16RepairTwoPolicies(), c16RepairRetry()}
+		r.Rule = fmt.Sprintf("four drivers (expiration, garbage collection, liveness via the lifecycle controller, node repair) over full state x clock-offset products (offsets -1s/0/+1s around each threshold; repair pools of 1..%d nodes with every unhealthy count, the other unhealthy nodes unhealthy equally long or only recently; garbage collection with a machine coming up between any two calls of the reconcile; a provider with two repair policies of different tolerations and a node matching none / one / both, each condition absent / healthy / unhealthy for its own toleration -5m/-1s/0/+1s; a repair retried after 0s/2s/6m while 0..2 more nodes of a pool of 5/10 turned unhealthy); "+
 			"each state is reconciled once fault-free and once for every way of failing <=%d of its API / provider calls (transient 500, conflict on optimistic-lock patches, provider error). A Delete of the NodeClaim must be justified by the documented trigger computed from the scenario parameters. "+
 			"non-trivial = distinct (state, fault set) with a delete or an injected fault", maxN, bound)
 		r.Assumptions = []string{"duplicate Nodes for one NodeClaim are enumerated but a delete there is not judged (the code documents it as an invalid state)", "garbage collection is driven with one NodeClaim so that its client-go fan-out has a single worker"}
